@@ -463,6 +463,9 @@ def filters_scenario(ctx):
     return {'sel': rec['sel']}
 
 
+RECV_KINDS = ['empty-foreign', 'garbage', 'valid', 'truncated-bundle', 'bad-utf8', 'bad-utf8-address']
+
+
 def recvloop_scenario(ctx):
     """the real UDP receive loop on a scripted socket: whatever arrives before (empty datagrams, garbage, from any
     sender), every later valid message is still dispatched; the loop ends only at the interface's own stop sentinel"""
@@ -474,12 +477,14 @@ def recvloop_scenario(ctx):
     valid = oli.OscMessageBuilder('/x')
     valid.add_arg(7)
     valid = valid.build().dgram
-    kinds = ['empty-foreign', 'garbage', 'valid', 'truncated-bundle']
+    kinds = RECV_KINDS
     n = 1 + ctx.choose('n', 3)
     script = [kinds[ctx.choose(f'd{i}', len(kinds))] for i in range(n)]
     rec = {'mode': 'rt', 'kind': 'recvloop', 'script': script}
     payload = {'empty-foreign': b'', 'garbage': b'\xff\xfe\x00abc', 'valid': valid,
-               'truncated-bundle': b'#bundle\x00' + b'\x00' * 6}
+               'truncated-bundle': b'#bundle\x00' + b'\x00' * 6,
+               # bytes that are not utf-8 where a string is expected (not the decoder's own error type)
+               'bad-utf8': b'/\x00\x00\x80\x00\x00\x00\x00', 'bad-utf8-address': b'/\xff\xfe\x00,\x00\x00\x00'}
     items = [(payload[k], foreign) for k in script] + [(valid, foreign), (b'', bind_addr)]
 
     class FakeSocket:
@@ -832,7 +837,7 @@ def replay(rec):
                                               f'{bool(got)}, OSC 1.0 says {want}'
     if kind == 'recvloop':
         sc = rec['script']
-        kinds = ['empty-foreign', 'garbage', 'valid', 'truncated-bundle']
+        kinds = RECV_KINDS
         vals = {'n': len(sc) - 1}
         for i, k in enumerate(sc):
             vals[f'd{i}'] = kinds.index(k)
